@@ -794,6 +794,20 @@ func (g *generator) unwindOnPanic(entered *bool) {
 	}
 }
 
+// handleThrow dispatches an exception to the handlers of the generator body. vm.handleThrow() stops at the frame pushed
+// by enter()/enterNext(), but also at finally frames which enterNextFinallyFrame() has turned into markers (finally blocks
+// entered by return() that are still executing): those are abandoned, together with the return completions routed
+// through them, and the exception goes on to the remaining try statements of the body.
+func (g *generator) handleThrow(v interface{}) *Exception {
+	ex := g.vm.handleThrow(v)
+	for ex != nil && len(g.vm.tryStack) > int(g.tryStackLen) {
+		g.vm.popTryFrame()
+		g.returning = g.pendingReturn()
+		ex = g.vm.handleThrow(ex)
+	}
+	return ex
+}
+
 func (g *generator) enterNextFinallyFrame() (canContinue bool) {
 	vm := g.vm
 	callStackLen := len(vm.callStack)
@@ -805,7 +819,10 @@ func (g *generator) enterNextFinallyFrame() (canContinue bool) {
 		}
 		ex := vm.restoreStacks(tf.iterLen, tf.refLen)
 		if ex != nil {
-			vm.throw(ex)
+			// closing an iterator threw: the exception replaces the return completion and goes to the handlers of the body
+			if ex = g.handleThrow(ex); ex != nil {
+				panic(ex)
+			}
 			return true
 		}
 		// restoreStacks() closes iterators, i.e. runs script code that may grow (reallocate) the try stack
@@ -890,7 +907,10 @@ resumed:
 
 			if vm.prg != nil && vm.pc == -2 { // normal exit from finally
 				if g.enterNextFinallyFrame() {
-					continue
+					// either the next finally block has been entered, or closing an iterator threw and a handler
+					// of the body took the exception (then this return completion is gone)
+					g.returning = g.pendingReturn()
+					goto resumed
 				}
 
 				// All finally blocks have exited without result
@@ -954,16 +974,8 @@ func (g *generator) nextThrow(v interface{}) (Value, resultType, *Exception) {
 	g.enterNext()
 	entered := true
 	defer g.unwindOnPanic(&entered)
-	ex := g.vm.handleThrow(v)
-	for ex != nil && len(g.vm.tryStack) > int(g.tryStackLen) {
-		// handleThrow() has not stopped at the frame pushed by enterNext() but at a finally frame which
-		// enterNextFinallyFrame() had turned into a marker: the generator was suspended at a yield inside a finally
-		// block entered by return(). The throw completion replaces the pending return completion and is handled
-		// by the remaining try statements of the generator body, if any.
-		g.vm.popTryFrame()
-		g.returning = g.pendingReturn()
-		ex = g.vm.handleThrow(ex)
-	}
+	// the generator may be suspended at a yield inside a finally block entered by return(): see generator.handleThrow
+	ex := g.handleThrow(v)
 	if ex != nil {
 		entered = false
 		g.vm.popTryFrame()
